@@ -214,7 +214,7 @@ func (s *Service) attestationData(ctx context.Context,
 	}
 }
 
-func (*Service) attestationDataLoop1(ctx context.Context,
+func (s *Service) attestationDataLoop1(ctx context.Context,
 	started time.Time,
 	requests int,
 	attestationDataResponses map[phase0.Root][]*attestationDataResponse,
@@ -233,6 +233,10 @@ func (*Service) attestationDataLoop1(ctx context.Context,
 	errored := 0
 	largestCount := 0
 	strictMajority := requests/2 + 1
+	if s.threshold > strictMajority {
+		// Stopping below the threshold would reject data that enough providers may still report.
+		strictMajority = s.threshold
+	}
 
 	for responded+errored != requests && largestCount < strictMajority {
 		select {
@@ -282,7 +286,7 @@ func (*Service) attestationDataLoop1(ctx context.Context,
 	return responded, errored
 }
 
-func (*Service) attestationDataLoop2(ctx context.Context,
+func (s *Service) attestationDataLoop2(ctx context.Context,
 	started time.Time,
 	requests int,
 	attestationDataResponses map[phase0.Root][]*attestationDataResponse,
@@ -302,6 +306,10 @@ func (*Service) attestationDataLoop2(ctx context.Context,
 		}
 	}
 	strictMajority := requests/2 + 1
+	if s.threshold > strictMajority {
+		// Stopping below the threshold would reject data that enough providers may still report.
+		strictMajority = s.threshold
+	}
 
 	for responded+errored != requests && largestCount < strictMajority {
 		select {
